@@ -212,7 +212,7 @@ def build_ocaml():
     if rc != 0:
         return False, out
     logs = out
-    for prog in ("arena_check",):
+    for prog in ("arena_check", "vec_check"):
         subprocess.run(["cp", os.path.join(OCAML_SRC, prog + ".ml"), OCAML_BUILD])
         rc, out = sh(["ocamlfind", "ocamlopt", "-O2", "-package", "zarith,str", "-linkpkg", "-w", "-a",
                       "model.mli", "model.ml", prog + ".ml", "-o", prog], cwd=OCAML_BUILD, timeout=600)
